@@ -257,3 +257,13 @@ def c13_blank_line_whitespace(v, params):
         if '\n'.join(l[k:] if (l and not l.strip()) else l for l in lines) == got:
             return True
     return False
+
+
+# ---- C03 ---------------------------------------------------------------------------------------
+
+def c03_double_quote_in_identifier(v, params):
+    """Recorded defect: the SQL renderer writes identifiers as "<name>" without doubling an embedded double quote, so a name
+    that contains one (only possible for a database built through the classes; DBML cannot express it) breaks the script.
+    Matches only the dedicated API-names family, where exactly one identifier contains a double quote."""
+    c = v['case']
+    return c.get('mode') == 'apinames' and '"' in c.get('name', '') and v['kind'] in ('unreadable-sql', 'sql-differs', 'sql-differs-after-edit')
